@@ -264,6 +264,58 @@ func facts(repo string) (string, error) {
 	if reject < 0 {
 		return "", fmt.Errorf("the rejection test of ParseBase32 was not recognised")
 	}
+	// String / Base2 / Base36: `return strconv.FormatInt(int64(f), <base>)`
+	bases := map[string]int{}
+	for _, d := range f.Decls {
+		fd, ok := d.(*ast.FuncDecl)
+		if !ok || fd.Recv == nil || len(fd.Recv.List) != 1 || fd.Body == nil {
+			continue
+		}
+		if rt, ok := fd.Recv.List[0].Type.(*ast.Ident); !ok || rt.Name != "ID" {
+			continue
+		}
+		name := fd.Name.Name
+		if name != "String" && name != "Base2" && name != "Base36" {
+			continue
+		}
+		if len(fd.Recv.List[0].Names) != 1 || len(fd.Body.List) != 1 {
+			return "", fmt.Errorf("ID.%s is not a single return statement", name)
+		}
+		recv := fd.Recv.List[0].Names[0].Name
+		ret, ok := fd.Body.List[0].(*ast.ReturnStmt)
+		if !ok || len(ret.Results) != 1 {
+			return "", fmt.Errorf("ID.%s is not a single return statement", name)
+		}
+		call, ok := ret.Results[0].(*ast.CallExpr)
+		if !ok || len(call.Args) != 2 {
+			return "", fmt.Errorf("ID.%s does not return strconv.FormatInt(int64(f), base)", name)
+		}
+		sel, ok := call.Fun.(*ast.SelectorExpr)
+		if !ok || sel.Sel.Name != "FormatInt" {
+			return "", fmt.Errorf("ID.%s does not call strconv.FormatInt", name)
+		}
+		if pk, ok := sel.X.(*ast.Ident); !ok || pk.Name != "strconv" {
+			return "", fmt.Errorf("ID.%s does not call strconv.FormatInt", name)
+		}
+		conv, ok := call.Args[0].(*ast.CallExpr)
+		if !ok || len(conv.Args) != 1 {
+			return "", fmt.Errorf("ID.%s does not format int64(f)", name)
+		}
+		if fn, ok := conv.Fun.(*ast.Ident); !ok || fn.Name != "int64" {
+			return "", fmt.Errorf("ID.%s does not format int64(f)", name)
+		}
+		if a, ok := conv.Args[0].(*ast.Ident); !ok || a.Name != recv {
+			return "", fmt.Errorf("ID.%s does not format its receiver", name)
+		}
+		bv, err := intLit(call.Args[1])
+		if err != nil {
+			return "", fmt.Errorf("ID.%s: base is not a literal", name)
+		}
+		bases[name] = bv
+	}
+	if len(bases) != 3 {
+		return "", fmt.Errorf("ID.String / Base2 / Base36 not all found")
+	}
 	var b strings.Builder
 	b.WriteString("-- generated by the C20 facts extractor (go/props/c20/facts.go) from randz/id.go; do not edit\n")
 	b.WriteString("namespace Golib.Gen.C20\n\n")
@@ -281,6 +333,7 @@ func facts(repo string) (string, error) {
 	fmt.Fprintf(&b, "/-- value stored by the first init loop -/\ndef invalidMark : Nat := %d\n\n", mark)
 	fmt.Fprintf(&b, "/-- number of iterations of the second init loop (`decodeBase32Map[encodeBase32Map[i]] = byte(i)`) -/\ndef loop2Bound : Nat := %d\n\n", loop2)
 	fmt.Fprintf(&b, "/-- the value `ParseBase32` compares a table entry with to reject a byte -/\ndef parseRejectMark : Nat := %d\n\n", reject)
+	fmt.Fprintf(&b, "/-- `ID.String`, `ID.Base2`, `ID.Base36` are `strconv.FormatInt(int64(f), base)` with these bases -/\ndef baseOfString : Nat := %d\ndef baseOfBase2 : Nat := %d\ndef baseOfBase36 : Nat := %d\n\n", bases["String"], bases["Base2"], bases["Base36"])
 	b.WriteString("end Golib.Gen.C20\n")
 	return b.String(), nil
 }
